@@ -335,3 +335,30 @@ def check_C09(chk):
     return chk.finish(rule="cases = (structure, call, argument) with arguments from {0,1,len-1,len,len+1,2len+7,2^32,2^62+12345,2^63,2^63+1,MAX-1,MAX}; "
                            "each replayed on a debug build (overflow checks on) and an optimized build (checks off); both must return the "
                            "value Layer A defines; a panic is a disagreement; distinct = distinct (content, call, argument)")
+
+
+BUILDER_TAIL = "INIT Init\nNEXT Next\nVIEW View\nINVARIANT Inv\nCHECK_DEADLOCK FALSE\n"
+
+
+def check_C16(chk):
+    bins = vlib.build_harness(["dbg-native"])
+    for kind, consts in (("sparse", {"MaxU": 6 if chk.thorough else 5, "MaxCap": 4 if chk.thorough else 3, "MaxLen": 0}),
+                         ("rl", {"MaxU": 0, "MaxCap": 0, "MaxLen": 14 if chk.thorough else 9})):
+        c = dict(consts)
+        c["Kind"] = '"%s"' % kind
+        path, res = vlib.generate_cases(chk.work, "GenBuilder_" + kind, "GenBuilder", cfg_consts(c) + BUILDER_TAIL, timeout=1200)
+        chk.add_tlc(res, "GenBuilder %s: transition cover of the builder machine (invariant BuilderOK checked)" % kind, {"behaviours": len(res.replay_lines)})
+        st = "replay builder transition cover (%s) on dbg-native" % kind
+        out = chk.run_harness(bins["dbg-native"], ["replay", "--kind", "builder", "--cases", path], st)
+        if out:
+            chk.add_replay(out, st)
+    ctor, rc = vlib.generate_cases(chk.work, "GenCtor_run", "GenCtor", cfg_consts({"Smalls": "{0, 1, 2, 5}"}) + GEN_TAIL)
+    chk.add_tlc(rc, "GenCtor: refusal of overflowing / out-of-order run-length builder calls near usize::MAX", {"behaviours": len(rc.replay_lines)})
+    out = chk.run_harness(bins["dbg-native"], ["replay", "--kind", "ctor", "--cases", ctor], "replay GenCtor on dbg-native")
+    if out:
+        chk.add_replay(out, "replay GenCtor on dbg-native")
+    chk.cov["exhaustive"] = True
+    stage_trace(chk, bins, "builder", "TraceBuilder", invariants=("Inv",), seeds=2 if chk.thorough else 1)
+    return chk.finish(rule="cases = builder call histories with valid and invalid calls; every (reachable builder state, call) pair once, reached by a "
+                           "shortest history, followed by a completion and the conversion; result, every observable after every call and the "
+                           "converted vector's content are compared; distinct = distinct history prefixes")
